@@ -735,7 +735,7 @@ def check_C12(A, R, tier):
                     continue
                 seen.add(k)
                 readers.append((r, v))
-    R.floor("R12", "lookups in the recorded history", len(readers), 6)
+    R.floor("R12", "lookups in the recorded history", len(readers), 4)
     for (r, v) in readers:
         ck = classify_key(v["key"])
         if ck[0] == "other":
@@ -833,7 +833,7 @@ def check_C18(A, R, tier):
     R.ob("R18.1", "new_history | returns that map", okret, detail=str(rv)[:160])
     # R18.2: all later operations are keyed by present jobs / present edges
     ops = out_ops(A, run)
-    R.floor("R18.2", "operations on the returned map", len([v for v in ops if v["op"] in ("insert", "remove")]), 5)
+    R.floor("R18.2", "operations on the returned map", len([v for v in ops if v["op"] in ("insert", "remove")]), 3)
     from models import is_hist_copy
     for v in ops:
         if v["op"] not in ("insert", "remove"):
